@@ -323,14 +323,18 @@ def builtin_unbound_head(c) -> bool:
     declaration starting with it at a package level): it denotes the built-in, which the model of the bindings does not carry"""
     names = [split(p) for p, _ in list(c["binds"]) + list(c.get("decls", []))]
     lv = list(levels(split(c.get("pkg") or "")))
-    mvars = {x[1] for x in e_walk(c["e"]) if x[0] == "map"}
-    for x in e_walk(c["e"]):
-        if x[0] == "ref":
-            ref = split(x[1])
-            if any(t in BUILTIN_NAMES for t in ref) and ref[0] not in mvars \
-                    and not any(n[:len(L) + 1] == L + (ref[0],) for L in lv for n in names):
-                return True
-    return False
+
+    def walk(e, scope) -> bool:
+        if e[0] == "ref":
+            ref = split(e[1])
+            return (any(t in BUILTIN_NAMES for t in ref) and ref[0] not in scope
+                    and not any(n[:len(L) + 1] == L + (ref[0],) for L in lv for n in names))
+        if e[0] == "list":
+            return any(walk(x, scope) for x in e[1])
+        if e[0] == "map":
+            return walk(e[2], scope) or walk(e[3], scope | {e[1]})      # lexical: the variable is visible in the body only
+        return False
+    return walk(c["e"], frozenset())
 
 
 # ----------------------------------------------------------------------------------------------
@@ -725,7 +729,7 @@ class C12(Prop):
         n_sp = 220 if quick else 6000
         for i in range(n_sp):
             kind = "macro" if i % 2 == 0 else rng.choice(sorted(by_kind))
-            d = respell(rng, rng.choice(by_kind[kind]))
+            d = respell(rng, rng.choice(by_kind[kind]), SPELL_BUILTIN if i % 4 == 0 else None)
             for rn in ("I", "C"):
                 cases.append(dict(d, runner=rn))
         return cases
